@@ -537,6 +537,8 @@ UPGRADER:
 				}
 				start = i + 1
 				p.nextState(stateBodyChunkSizeLF)
+			case '\n':
+				return ErrCRExpected
 			default:
 				if !isHex(c) && p.chunkSize < 0 {
 					chunkSize, err := parseAndValidateChunkSize(string(data[start:i]))
